@@ -343,7 +343,9 @@ func finish(a, wa *agg, witnessed, findings []*Finding, ck check, o DriverOpts, 
 	sp := ck.spec()
 	// crashes/hangs: violation for checks where that is the property
 	for _, ic := range a.incons {
-		if sp.CrashIsViolation {
+		// a worker that died or stalled before it announced any case (start-up on a loaded
+		// machine) says nothing about the property: it stays inconclusive
+		if sp.CrashIsViolation && 0 <= ic.Index {
 			raw := json.RawMessage("null")
 			if 0 <= ic.Index {
 				raw = ck.genJSON(o.Seed, ic.Index, o.Tier)
@@ -448,6 +450,13 @@ func finish(a, wa *agg, witnessed, findings []*Finding, ck check, o DriverOpts, 
 		for k, ic := range a.incons {
 			if k < 5 {
 				fmt.Printf("INCONCLUSIVE case=%d %s: %s\n", ic.Index, ic.Kind, trunc(ic.Info, 600))
+			}
+		}
+	} else {
+		for _, ic := range a.incons {
+			if ic.Index < 0 {
+				inconN++
+				fmt.Printf("INCONCLUSIVE case=none %s of a worker before it announced a case: %s\n", ic.Kind, trunc(ic.Info, 200))
 			}
 		}
 	}
